@@ -38,6 +38,7 @@ def run(ctx):
     verdict(ctx, facts)
     index_sync(ctx, facts)
     loud(ctx, facts)
+    channel_per_batch(ctx, facts)
     callers(ctx, facts)
     ctx.assume("tokio::sync::watch delivers the last value sent before a successful changed(); std::sync::Mutex serialises callers")
 
@@ -412,3 +413,32 @@ def _aliases_fwd(b, local):
             if s["r"]["k"] == "use" and F.op_local(s["r"]["o"]) in out and len(s["p"]) == 1:
                 out.add(s["p"][0])
     return out
+
+
+def channel_per_batch(ctx, facts):
+    """Each batch has its own verdict channel: the watch::channel a BatchState is built with is created for that batch
+    (same loop iteration as the push) and moved in, not a clone of a shared sender - otherwise a waiter of batch A is
+    woken by, and returns, the verdict of a sibling batch B."""
+    ctx.rule("CHANNEL-per-batch: every BatchState aggregate in Batcher takes `validation_result` directly from a watch::channel() call (no Clone of a sender), and that call lies on the same loop cycle as the push of the batch (one channel per created batch)")
+    n = 0
+    for b in facts.non_test_bodies():
+        if not b.root.startswith("protocol::context::batcher::Batcher"):
+            continue
+        adt = facts.adts.get("protocol::context::batcher::BatchState")
+        names = [f["name"] for f in adt["variants"][0]["fields"]] if adt else []
+        for bb, idx, st in b.iter_assigns():
+            r = st["r"]
+            if r["k"] != "agg" or not (r.get("adt") or "").endswith("batcher::BatchState") or "validation_result" not in names:
+                continue
+            n += 1
+            ctx.count(bodies=1)
+            op = r["ops"][names.index("validation_result")]
+            e = flow.strip_casts(flow.expr_of(b, op, max_depth=20))
+            direct = e[0] == "proj" and e[1][0] == "call" and e[1][1].endswith("watch::channel")
+            chans = [cb for cb, t in b.calls() if (F.callee(t)[0] or "").endswith("watch::channel")]
+            pushes = [pb for pb, t in b.calls() if re.search(r"VecDeque::<T, A>::push_back$", F.callee(t)[0] or "")]
+            same_cycle = bool(chans) and bool(pushes) and any(pb in b.reachable(cb) and cb in b.reachable(pb) for cb in chans for pb in pushes)
+            in_loop = bb in b.reachable(bb, avoid=frozenset()) and any(bb in b.reachable(s_) for s_ in b.succs(bb))
+            ok = direct and (same_cycle or not any(bb in b.reachable(s_) for s_ in b.succs(bb)))
+            ctx.ob("CHANNEL-per-batch", f"{b.path.split('::')[-1]}:own-channel", ok, "each created batch gets a fresh verdict channel" if ok else "a BatchState is built with a clone of / a channel created outside the loop that creates the batches: batches created by the same call share one verdict channel, so a waiter is released by a sibling batch's verdict before its own batch was checked", site_of(b, bb, idx))
+    ctx.floor("CHANNEL-per-batch", "BatchState construction sites", n, 1)
